@@ -7,6 +7,7 @@ by the correspondence run of `harness/props/c02.py`.  Specification: the C01 enc
 positions that follow from the layout (`recEntry`, Spec.lean) and `sliceSpec`.
 -/
 import TD.C02.Lemmas
+import TD.C02.Scan
 import TD.C01.Props
 
 namespace TD.C02
@@ -93,21 +94,27 @@ theorem get_full_eq_iter (sul : SULW) (rpre rpost : List LR) (r : LR) (lpre lpos
   have := get_slice sul rpre rpost r lpre lpost d ds hlen hs hc 0 (-1)
   simpa [sliceSpec] using this
 
-/-! ### NOT PROVED: `positions_encode`
+/-- **The index has one entry per logical record with the record's true type, kind (attribute byte of its first
+segment), file positions and body length**: the position scan of a conformant file (`LogicalRecordIndex._enter`)
+yields exactly the entries that follow from the layout (`specPositionsS`: positions from `segTable`, grouped per record
+by `collectPos`), and ends without error. -/
+theorem positions_encode (sul : SULW) (recs : List LR) (ℓ : Layout) (hs : sul.conformant = true) (hne : recs ≠ [])
+    (hc : ℓ.conformant recs = true) :
+    iterPositions (encode sul recs ℓ) = .ok ((specPositionsS recs ℓ).map PosSpec.toDesc) := by
+  unfold iterPositions
+  rw [iterPositionsSt_encode sul recs ℓ hs hne hc]
 
-Full statement (kept here, exercised only):
+/-! Residual gap (stated, not proved): `positions_encode` speaks of `specPositionsS` (positions by `segTable`),
+`get_slice` / `touched_subset` of `recEntry` (positions by `walkEnd`).  That entry k of `specPositionsS` has the positions
+`recEntry` of record k — both are the same walk over the layout — is checked below on the example by `decide`, and on
+every run by the harness (implementation entries = positions computed independently in Python = the positions the
+fetches use), but there is no general lemma. -/
 
-  theorem positions_encode (sul recs ℓ) (hs : sul.conformant) (hne : recs ≠ []) (hc : ℓ.conformant recs) :
-      iterPositions (encode sul recs ℓ) = .ok ((specPositionsS recs ℓ).map PosSpec.toDesc)
-
-i.e. the position scan (`LogicalRecordIndex._enter`) yields one entry per record, with the (visible record, first
-segment) positions that follow from the layout — entry k is `recEntry` of record k, the pair the theorems above fetch
-at —, the first segment's attribute byte, the record type and the summed body length.  The gap: the induction over the
-flat segment list for `scanGo` (the analogue of `TD.C01.iterGo_flat`) is not done.  What stands in for it on every
-run: the correspondence streams `positions` (model = implementation) and `spec_positions` (`specPositionsS` evaluated
-by the driver = implementation) and the oracle on the implementation (entries = positions computed independently in
-Python from the layout).  Below: the statement checked by kernel evaluation on a concrete file with 4 records,
-6 segments, 3 visible records (the C01 example). -/
+example : (specPositionsS exRecs exLayout).map (fun c => (c.vrPos, c.lrshPos))
+    = [recEntry [] [] ⟨10, 2, 0, none, false, false, false, some 40⟩,
+       recEntry (exRecs.take 1) (exLayout.recs.take 1) ⟨3, 9, 0, none, false, false, false, none⟩,
+       recEntry (exRecs.take 2) (exLayout.recs.take 2) ⟨0, 12, 1, none, false, false, false, some 36⟩,
+       recEntry (exRecs.take 3) (exLayout.recs.take 3) ⟨12, 3, 0, none, false, true, true, none⟩] := by decide +kernel
 
 example : iterPositionsSt (encode exSul exRecs exLayout)
     = ((specPositionsS exRecs exLayout).map fun c => ⟨c.vrPos, c.lrshPos, c.attr, c.type, (c.ldLen : Int)⟩, none) := by
